@@ -101,11 +101,15 @@ def load_network(topo, equipment):
     return network_from_json(copy.deepcopy(topo), equipment)
 
 
-def design(topo, eq, source=None, destination=None, sim=None, **kw):
-    """equipment from JSON + network from JSON + designed_network; returns (network, equipment, req, ref_req)"""
+def design(topo, eq, source=None, destination=None, sim=None, warm=None, **kw):
+    """equipment from JSON + network from JSON + designed_network; returns (network, equipment, req, ref_req).
+    warm: a topology document that is loaded and auto-designed FIRST with the same equipment object (a process that loads
+    its library once and designs several networks): the design of `topo` must not depend on it."""
     from gnpy.tools.worker_utils import designed_network
     set_sim_params(sim)
     equipment = make_equipment(eq)
+    if warm is not None:
+        designed_network(equipment, load_network(warm, equipment))
     network = load_network(topo, equipment)
     network, req, ref = designed_network(equipment, network, source=source, destination=destination, **kw)
     return network, equipment, req, ref
